@@ -10,6 +10,7 @@ import (
 	"os"
 	"path"
 	"path/filepath"
+	"sort"
 	"strings"
 	"sync"
 	"syscall"
@@ -323,6 +324,8 @@ func (l *localFS) KeysPrefix(_ context.Context, token, prefix, delimiter string,
 		if err != nil {
 			return nil, "", err
 		}
+		// keys are listed in lexicographic order, which differs from the order of the walk ("a-b" < "a/b")
+		sort.Strings(matches)
 		if delimiter != "" {
 			// dedupe truncated matches
 			deduped := make([]string, 0, len(matches))
